@@ -118,8 +118,8 @@ func c08History(t *vk.T, proto string, n, th, rep int, env vk.Env) {
 		op := ops[r.Intn(len(ops))]
 		if step == 0 || (step == maxLen-1 && refreshes == 0) {
 			op = "refresh"
-		} else if step == 1 && rep%2 == 0 && proto != "cmp" {
-			op = "aborted-refresh" // every second history loses a refresh right after its first one
+		} else if step == 1 && (rep%2 == 0 && proto != "cmp" || proto == "cmp" && rep%3 == 0) {
+			op = "aborted-refresh" // every second history (every third for CMP) loses a refresh right after its first one
 		}
 		hist += op[:3] + ">"
 		tag := fmt.Sprintf("%s n=%d t=%d ids=%q history=%s", proto, n, th, ids, hist)
@@ -162,6 +162,9 @@ func c08History(t *vk.T, proto string, n, th, rep int, env vk.Env) {
 			// parties hold (the very same objects) must be exactly as usable as before
 			final := map[string]int{"frost": 3, "frost-taproot": 3, "doerner": 3, "cmp": 5}[proto]
 			from := 2 + (rep/2+step+r.Intn(2)*(final-1))%(final-1)
+			if proto == "cmp" && r.Intn(2) == 0 {
+				from = final // the confirmation round is the one that gets lost
+			}
 			before := secretsOf(cur)
 			o := opt()
 			o.Prepare = func(nn *sim.Net) {
@@ -218,6 +221,16 @@ func c08History(t *vk.T, proto string, n, th, rep int, env vk.Env) {
 			refreshes++
 			t.Obs("evaluations", 1)
 			t.Obs("refreshes|"+proto, 1)
+			// CMP and Doerner return new configurations: the ones passed in still are the pre-refresh epoch
+			// (FROST documents that it updates the caller's share object; see the assumption of this check)
+			if proto == "cmp" || proto == "doerner" {
+				for id, sec := range secretsOf(cur) {
+					if o, ok := oldSec[id]; ok && o.Cmp(sec) != 0 {
+						t.Violation(proto+"|refresh-modified-the-configuration-passed-in", "%s: after a completed refresh the configuration object %q passed in no longer holds its pre-refresh share", tag, id)
+						return
+					}
+				}
+			}
 			for id, c := range tapClones {
 				cs := fx.ShareOfTaproot(c)
 				t.Obs("clones_compared_after_refresh", 1)
